@@ -486,6 +486,15 @@ def check_lints(check, funcs, rule_prefix: str = ''):
       check.ob('R-CACHE', fi, '@' + txt(d)[:60], False,
                f'the memoised result depends on more than the arguments: {w} changes at run time (backend selection, configuration), so a '
                'cached result outlives the state it was built for', node=d, exact=True)
+    for nd_ in ff.cfg.nodes:
+      st_ = nd_.ast
+      if nd_.kind == 'stmt' and isinstance(st_, ast.Assign) and isinstance(st_.targets[0], ast.Tuple) and isinstance(st_.value, ast.Call) and \
+          ff.ext(st_.value.func) == 'builtins.zip' and len(st_.value.args) == 1 and isinstance(st_.value.args[0], ast.Starred):
+        guarded = any(True for _ in guards_of(ff, st_, implied=True))
+        if not guarded:
+          check.ob('R-EMPTY', fi, txt(st_)[:70], False,
+                   'unpacking zip(*rows) into a fixed number of names raises ValueError when there are no rows (an empty tree, an empty '
+                   'cohort): the loop it replaces simply produced empty lists', node=st_, exact=True)
     for st, cname in starved_collectors(ff):
       check.ob('R-ACCUM', fi, f'{cname} = <empty>', False,
                f'`{cname}` is created empty and read later, but nothing is ever added to it: whatever the loop computes never reaches the result',
